@@ -16,7 +16,7 @@ var joinConds = []string{
 	"$right.b < $left.a, $right.k == $left.k",
 	"$right.k != $left.a, $left.a <= $right.b",
 }
-var joinPre = []string{"", " | where a > 0", " | take 1", " | sort by a asc", " | extend c = a + 1", " | top 1 by a", " | sort by a asc nulls last | take 1", " | where a > 0 | top 1 by k asc"}
+var joinPre = []string{"", " | where a > 0", " | take 1", " | sort by a asc", " | extend c = a + 1", " | top 1 by a", " | sort by a asc nulls last | take 1", " | where a > 0 | top 1 by k asc", " | summarize by k", " | summarize a = max(a) by k", " | project k, a | sort by k"}
 var joinRight = []string{"", " | where b > 0", " | take 1", " | sort by b", " | where isnull(b) | take 1"}
 var joinPost = []string{"", " | where a > 0", " | count", " | project a, b", " | sort by b asc nulls last", " | take 1", " | summarize n = count() by a"}
 
